@@ -96,7 +96,7 @@ func solveReports(reps []*FuncReport, dir string, timeout time.Duration, par int
 				if o.Expect == "sat" && to > 2*time.Second {
 					to = 2 * time.Second // vacuity: only a quick "unsat" matters
 				}
-				r := race(file, to, o.Expect)
+				r := raceWith(firstPass, file, to)
 				r.Bytes = n
 				rep.Results[i] = r
 			}(i, o)
@@ -105,7 +105,7 @@ func solveReports(reps []*FuncReport, dir string, timeout time.Duration, par int
 	wg.Wait()
 	// second pass: anything not discharged is retried almost alone with three times the timeout, so that a loaded machine
 	// cannot turn a provable obligation into an alarm
-	sem2 := make(chan struct{}, 2)
+	sem2 := make(chan struct{}, 1)
 	for _, rep := range reps {
 		if rep.Err != nil || rep.VC == nil {
 			continue
@@ -120,7 +120,7 @@ func solveReports(reps []*FuncReport, dir string, timeout time.Duration, par int
 				defer wg.Done()
 				sem2 <- struct{}{}
 				defer func() { <-sem2 }()
-				r := race(rep.Results[i].File, 3*timeout, "")
+				r := race(rep.Results[i].File, 4*timeout, "")
 				r.Bytes = rep.Results[i].Bytes
 				if r.Status == "unsat" || r.Status == "sat" {
 					r.Solver += " (retry)"
